@@ -31,7 +31,8 @@ EXPLANATION = (
     'decided.'
     ' Also decided, over all functions: numeric options and `x and x < c` range guards are not truth-tested (N0); possibly omitted hyper-parameters are only subscripted under a guard (N1); list-or-tuple parameters are lists before list concatenation (T3) and tuples before use as keys (T4); format strings get as many arguments as specifiers, tuple-valued operands included (F0); literals validated through .lower() are never compared raw (V3c); lattice pair constraints reject (d, d) (V9); divisions by data reductions are guarded or reviewed (D3); no loop variable is read after its loop (X6); constructor parameters are validated in every configuration, not only when other options create a constraint object (V1, guard-aware).'
     ' Adjacent statements of identical shape vary consistently in their identifiers and role words (CP1, copy-paste slips).'
-    ' Containers that collect what a validator has seen are created once, at the scope the reference gives them (S14), and what is evaluated for every element of an iteration reads the element (X9).')
+    ' Containers that collect what a validator has seen are created once, at the scope the reference gives them (S14), and what is evaluated for every element of an iteration reads the element (X9).'
+    ' A parameter that a constructor wraps into a list is not handed to a call before the wrap (X10); verify_config reaches, for every (config class, parameterization), the sub-validators of a reviewed table (V12).')
 ASSUMPTIONS = [
     'ValueError raised inside verify_hyperparameters / canonicalize_* during '
     '__init__ or build is "rejected up front"',
@@ -170,6 +171,10 @@ def run(prog, res):
   res.floor('X6', 250)
   _sl.check_unused_iteration(prog, res, [f for f in prog.all_functions()])
   res.floor('X9', 200)
+  _sl.check_raw_before_normalised(prog, res, [f for f in prog.all_functions()])
+  res.floor('X10', 5)
+  _verify_config_dispatch(prog, res)
+  res.floor('V12', 6)
   from ..rules import siblings
   siblings.selfcheck()
   for f in prog.all_functions():
@@ -203,6 +208,92 @@ def _v1(prog, res):
               'class is rejected at construction' % (cls.name, vq))
     exempt = {p: r for (c, p), r in V1_EXEMPT.items() if c == cq}
     validate.check_validator_belief(prog, res, cls, val, exempt=exempt)
+
+
+def _verify_config_dispatch(prog, res):
+  """V12: premade_lib.verify_config hands every kind of model config to the
+  sub-validators that know its restrictions.  For each (config class,
+  parameterization) the statements executed are followed (isinstance tests on
+  the config class and comparisons of `parameterization` are decided, every
+  other test is unknown and contributes nothing) and the set of `_verify_*`
+  helpers that are certainly called is compared with the reviewed table: an
+  ensemble is an ensemble AND, when Kronecker-factored, subject to the
+  Kronecker-factored restrictions - a dispatch written as an if / elif chain
+  on the class loses the second."""
+  fn = prog.function('premade_lib.verify_config')
+  res.analysed(fn)
+  table = {
+      ('CalibratedLatticeEnsembleConfig', 'all_vertices'):
+          {'_verify_ensemble_config', '_verify_feature_config'},
+      ('CalibratedLatticeEnsembleConfig', 'kronecker_factored'):
+          {'_verify_ensemble_config', '_verify_kronecker_factored_config',
+           '_verify_feature_config'},
+      ('CalibratedLatticeConfig', 'all_vertices'): {'_verify_feature_config'},
+      ('CalibratedLatticeConfig', 'kronecker_factored'):
+          {'_verify_kronecker_factored_config', '_verify_feature_config'},
+      ('CalibratedLinearConfig', None): {'_verify_feature_config'},
+      ('AggregateFunctionConfig', None):
+          {'_verify_aggregate_function_config', '_verify_feature_config'},
+  }
+
+  def decide(t, cls, par):
+    if isinstance(t, ast.UnaryOp) and isinstance(t.op, ast.Not):
+      v = decide(t.operand, cls, par)
+      return None if v is None else not v
+    if isinstance(t, ast.BoolOp):
+      vs = [decide(v, cls, par) for v in t.values]
+      if isinstance(t.op, ast.And):
+        if any(v is False for v in vs):
+          return False
+        return True if all(v is True for v in vs) else None
+      if any(v is True for v in vs):
+        return True
+      return False if all(v is False for v in vs) else None
+    if isinstance(t, ast.Call) and dotted(t.func) == 'isinstance' and \
+        len(t.args) == 2 and dotted(t.args[0]) == 'model_config':
+      names = t.args[1].elts if isinstance(t.args[1], ast.Tuple) else [
+          t.args[1]]
+      return any((dotted(x) or '').split('.')[-1] == cls for x in names)
+    if isinstance(t, ast.Compare) and len(t.ops) == 1 and dotted(
+        t.left) == 'model_config.parameterization' and isinstance(
+            t.comparators[0], ast.Constant):
+      if par is None:
+        return None
+      eq = t.comparators[0].value == par
+      if isinstance(t.ops[0], ast.Eq):
+        return eq
+      if isinstance(t.ops[0], ast.NotEq):
+        return not eq
+    return None
+
+  def called(stmts, cls, par, out):
+    for st in stmts:
+      if isinstance(st, ast.If):
+        v = decide(st.test, cls, par)
+        if v is True:
+          called(st.body, cls, par, out)
+        elif v is False:
+          called(st.orelse, cls, par, out)
+        continue
+      if isinstance(st, (ast.For, ast.While, ast.With)):
+        called(st.body, cls, par, out)
+        continue
+      for c in ast.walk(st):
+        if isinstance(c, ast.Call):
+          nm = getattr(prog.resolve_call(fn, c), 'name', '') or ''
+          if nm.startswith('_verify_'):
+            out.add(nm)
+  for (cls, par), want in sorted(table.items(), key=str):
+    got = set()
+    called(fn.node.body, cls, par, got)
+    missing = sorted(want - got)
+    res.check(not missing, 'V12', 'premade_lib.verify_config|%s|%s' % (
+        cls, par), fn.loc(),
+              '%s (%s) is checked by %s' % (cls, par, ', '.join(sorted(want))),
+              'a %s%s is no longer handed to %s: its restrictions are not '
+              'checked and an unsupported setting is silently dropped' % (
+                  cls, ' with parameterization %r' % par if par else '',
+                  ', '.join(missing)))
 
 
 def _v1_siblings(prog, res):
